@@ -1,16 +1,17 @@
 (* C19 -- the module loader's bookkeeping, as implemented.
 
    Hand model of
-     driver/src/modules/loader/load.rs        (load_module: std short-circuit, cycle check on the
-                                               dotted path AS WRITTEN against the loading stack, memo
-                                               keyed by the dotted path, fallback "parent + symbol")
+     driver/src/modules/loader/load.rs        (load_module: std short-circuit, resolution first (with the
+                                               fallback "parent + symbol"), then cycle check and memo on
+                                               the FILE the import resolves to)
      driver/src/modules/loader/compile.rs     (compile_module: registered in loaded_modules BEFORE
                                                the nested imports and the body run, base_dir swapped to
                                                the module's directory, per-module compile-time name sets)
      driver/src/modules/loader/exports.rs     (collect_exports = pub fn / pub let; register_exports)
      driver/src/modules/loader/needs.rs       (get_load_result, get_module_alias, resolve_path_with_fallback)
      driver/src/modules/loader/resolution.rs + modules/src/resolution/patterns.rs
-                                              (dir/p.aelys first, then dir/p/mod.aelys, relative to base_dir)
+                                              (dir/p.aelys first, then dir/p/mod.aelys, relative to base_dir,
+                                               then the same relative to the entry file's directory)
      driver/src/modules/needs.rs              (load_modules_for_program: the entry's name sets and the
                                                SymbolConflict check)
    Identifiers (path segments, definition names, aliases) are numbers; the harness prints
@@ -65,26 +66,33 @@ Definition dir_of (f : fpath) : list ident := removelast f.
 Definition last_seg (p : key) : ident := last p 0.
 
 (* ---------------------------------------------------------------- resolution *)
-(* search_with_patterns: Direct{aelys} then ModFile{aelys}, below base_dir.  (Native patterns and the
-   manifest are outside the model; base_root containment always holds without symlinks.) *)
-Definition resolve_direct (fs : fsys) (base : list ident) (p : key) : option fpath :=
-  match find_file fs (base ++ p) with
-  | Some _ => Some (base ++ p)
-  | None => match find_file fs (base ++ p ++ [MODSEG]) with
-            | Some _ => Some (base ++ p ++ [MODSEG])
+(* search_with_patterns: Direct{aelys} then ModFile{aelys}, below a directory.  (Native patterns and
+   the manifest are outside the model; root containment always holds without symlinks.) *)
+Definition resolve_in (fs : fsys) (dir : list ident) (p : key) : option fpath :=
+  match find_file fs (dir ++ p) with
+  | Some _ => Some (dir ++ p)
+  | None => match find_file fs (dir ++ p ++ [MODSEG]) with
+            | Some _ => Some (dir ++ p ++ [MODSEG])
             | None => None
             end
   end.
 
+(* resolve_module_path: next to the importing file, then next to the entry file (root) *)
+Definition resolve_direct (fs : fsys) (root base : list ident) (p : key) : option fpath :=
+  match resolve_in fs base p with
+  | Some f => Some f
+  | None => if key_eqb base root then None else resolve_in fs root p
+  end.
+
 (* resolve_path_with_fallback: the path itself, else (when it has >1 segment) its parent with the
    last segment taken as a symbol.  Result: file, actual dotted path, optional symbol. *)
-Definition resolve_fb (fs : fsys) (base : list ident) (p : key) : option (fpath * key * option ident) :=
-  match resolve_direct fs base p with
+Definition resolve_fb (fs : fsys) (root base : list ident) (p : key) : option (fpath * key * option ident) :=
+  match resolve_direct fs root base p with
   | Some f => Some (f, p, None)
   | None =>
       match p with
       | _ :: _ :: _ =>
-          match resolve_direct fs base (removelast p) with
+          match resolve_direct fs root base (removelast p) with
           | Some f => Some (f, removelast p, Some (last_seg p))
           | None => None
           end
@@ -119,15 +127,15 @@ Record minfo := { mi_file : fpath; mi_exports : list ident; mi_name : ident }.
 (* what one module (or the entry) could name when its body ran *)
 Record event := {
   ev_file : fpath;             (* the file whose top level ran: the init trace is map ev_file *)
-  ev_key : key;                (* the key it was registered under ([] for the entry) *)
+  ev_key : key;                (* the dotted path it was first imported under ([] for the entry) *)
   ev_aliases : list ident;     (* Compiler.module_aliases *)
   ev_known : list ident;       (* Compiler.known_globals + its own definitions *)
   ev_ns : nsmap                (* VM.globals as its top level sees them *)
 }.
 
 Record lstate := {
-  loaded : list (key * minfo);   (* loaded_modules *)
-  stack : list key;              (* loading_stack, top first *)
+  loaded : list (fpath * minfo);   (* loaded_modules, keyed by the resolved file *)
+  stack : list fpath;              (* loading_stack, top first *)
   base : list ident;             (* base_dir *)
   ns : nsmap;                    (* VM.globals *)
   events : list event            (* oldest first *)
@@ -199,13 +207,22 @@ Definition add_lres (acc : names) (r : lres) : names :=
   | LModule a => (a :: fst acc, snd acc)
   | LSymbol s => (fst acc, s :: snd acc)
   end.
-Definition contrib_mod (acc : names) (i : import) (r : lres) (ld : list (key * minfo)) : names :=
+(* get_module_for: the loaded module an import path written in the current file refers to
+   (resolution without the symbol fallback, relative to the current base_dir) *)
+Definition module_for (fs : fsys) (root base : list ident) (i : import) (ld : list (fpath * minfo)) : option minfo :=
+  match resolve_direct fs root base (i_path i) with
+  | Some f => lookup f ld
+  | None => None
+  end.
+
+Definition contrib_mod (acc : names) (i : import) (r : lres) (mi : option minfo) : names :=
   let acc := add_lres acc r in
-  match lookup (i_path i) ld with
+  match mi with
   | Some info =>
       match i_form i with
       | FModule | FWildcard => (fst acc, mi_exports info ++ snd acc)
-      | _ => acc       (* Symbols: only the first symbol (the LoadResult) becomes known *)
+      | FSymbols l => (fst acc, l ++ snd acc)
+      | FAlias _ => acc
       end
   | None => acc
   end.
@@ -213,10 +230,10 @@ Definition contrib_mod (acc : names) (i : import) (r : lres) (ld : list (key * m
 (* ... and of the entry (needs.rs), with symbol_origins for the SymbolConflict check *)
 Fixpoint inter_nonempty (a b : list ident) : bool :=
   match a with [] => false | x :: r => mem_id x b || inter_nonempty r b end.
-Definition contrib_entry (acc : names) (orig : list ident) (i : import) (r : lres) (ld : list (key * minfo))
+Definition contrib_entry (acc : names) (orig : list ident) (i : import) (r : lres) (mi : option minfo)
   : option (names * list ident) :=
   let acc := add_lres acc r in
-  match lookup (i_path i) ld with
+  match mi with
   | Some info =>
       match i_form i with
       | FModule =>
@@ -237,94 +254,92 @@ Definition loader := import -> lstate -> res (lstate * lres).
 
 (* the `for stmt in &stmts { if let Needs(n) = ... { self.load_module(n, vm)?; ... } }` loop of
    compile_module; ld is load_module one level down *)
-Fixpoint go_mod (ld : loader) (imps : list import) (s : lstate) (acc : names) : res (lstate * names) :=
+Fixpoint go_mod (fs : fsys) (root : list ident) (ld : loader) (imps : list import) (s : lstate) (acc : names)
+  : res (lstate * names) :=
   match imps with
   | [] => Ok (s, acc)
   | j :: r =>
       match ld j s with
-      | Ok (s', lr) => go_mod ld r s' (contrib_mod acc j lr (loaded s'))
+      | Ok (s', lr) => go_mod fs root ld r s' (contrib_mod acc j lr (module_for fs root (base s') j (loaded s')))
       | Err e tr => Err e tr
       | Fuel => Fuel
       end
   end.
 
-(* compile_module (with the push/pop that load_module does around it): `i` is the import as
-   written, `actual`/`sym` what resolve_path_with_fallback made of it, `m` the parsed file *)
-Definition compile (ld : loader) (file : fpath) (actual : key) (sym : option ident) (i : import)
+(* compile_module (with the push/pop that load_module does around it): `eimp` is the import the
+   statement stands for (`needs m.s` = `needs s from m`), `m` the parsed file *)
+Definition compile (fs : fsys) (root : list ident) (ld : loader) (file : fpath) (eimp : import)
                    (m : module) (st : lstate) : res (lstate * lres) :=
-  let eimp := match sym with
-              | Some s => {| i_path := actual; i_form := FSymbols [s] |}
-              | None => i
-              end in
-  let ret := match sym with Some s => LSymbol s | None => lres_of i end in
   let ex := pub_names m in
   let info := {| mi_file := file; mi_exports := ex; mi_name := last_seg (i_path eimp) |} in
   (* registered first, base_dir swapped, then the nested imports *)
-  let st1 := {| loaded := (actual, info) :: loaded st; stack := actual :: stack st;
+  let st1 := {| loaded := (file, info) :: loaded st; stack := file :: stack st;
                 base := dir_of file; ns := ns st; events := events st |} in
-  match go_mod ld (m_imports m) st1 ([], []) with
+  match go_mod fs root ld (m_imports m) st1 ([], []) with
   | Fuel => Fuel
   | Err e tr => Err e tr
   | Ok (st2, acc) =>
       (* body runs; globals synced; exports registered for this importer *)
       let s1 := write_defs file m (ns st2) in
-      let ev := {| ev_file := file; ev_key := actual; ev_aliases := fst acc;
+      let ev := {| ev_file := file; ev_key := i_path eimp; ev_aliases := fst acc;
                    ev_known := map d_name (m_defs m) ++ snd acc; ev_ns := s1 |} in
       match bind_exports eimp ex s1 with
       | None => Err ESymbolNotFound (events st2 ++ [ev])
       | Some s2 =>
           Ok ({| loaded := loaded st2; stack := tl (stack st2); base := base st;
-                 ns := s2; events := events st2 ++ [ev] |}, ret)
+                 ns := s2; events := events st2 ++ [ev] |}, lres_of eimp)
       end
   end.
 
 (* load_module above the recursion: everything except the recursive loads *)
-Definition load_step (fs : fsys) (ld : loader) (i : import) (st : lstate) : res (lstate * lres) :=
+Definition load_step (fs : fsys) (root : list ident) (ld : loader) (i : import) (st : lstate)
+  : res (lstate * lres) :=
   let p := i_path i in
   match p with
   | [] => Err ENotFound (events st)
   | _ :: _ =>
     if is_std p then Ok (st, lres_of i)
-    else if mem_key p (stack st) then Err ECircular (events st)
-    else match lookup p (loaded st) with
-    | Some info =>
-        match bind_exports i (mi_exports info) (ns st) with
-        | None => Err ESymbolNotFound (events st)
-        | Some s => Ok (set_ns st s, lres_of i)
-        end
-    | None =>
-        match resolve_fb fs (base st) p with
-        | None => Err ENotFound (events st)
-        | Some (file, actual, sym) =>
-          match sym, lookup actual (loaded st) with
-          | Some s, Some _ => Ok (st, LSymbol s)
-          | _, _ =>
+    else match resolve_fb fs root (base st) p with
+    | None => Err ENotFound (events st)
+    | Some (file, actual, sym) =>
+        (* `needs m.s` is the selective import of s from m *)
+        let eimp := match sym with
+                    | Some s => {| i_path := actual; i_form := FSymbols [s] |}
+                    | None => i
+                    end in
+        if mem_key file (stack st) then Err ECircular (events st)
+        else match lookup file (loaded st) with
+        | Some info =>
+            match bind_exports eimp (mi_exports info) (ns st) with
+            | None => Err ESymbolNotFound (events st)
+            | Some s => Ok (set_ns st s, lres_of eimp)
+            end
+        | None =>
             match find_file fs file with
             | None => Err ENotFound (events st)
-            | Some m => compile ld file actual sym i m st
+            | Some m => compile fs root ld file eimp m st
             end
-          end
         end
     end
   end.
 
-Fixpoint load (fs : fsys) (fuel : nat) : loader :=
+Fixpoint load (fs : fsys) (root : list ident) (fuel : nat) : loader :=
   match fuel with
   | O => fun _ _ => Fuel
-  | S f => load_step fs (load fs f)
+  | S f => load_step fs root (load fs root f)
   end.
 
 (* load_modules_for_program + the entry's own top level *)
-Fixpoint entry_go (fs : fsys) (fuel : nat) (imps : list import) (s : lstate) (acc : names) (orig : list ident)
-  : res (lstate * names) :=
+Fixpoint entry_go (fs : fsys) (root : list ident) (fuel : nat) (imps : list import) (s : lstate)
+                  (acc : names) (orig : list ident) : res (lstate * names) :=
   match imps with
   | [] => Ok (s, acc)
   | j :: r =>
-      match load fs fuel j s with
+      match load fs root fuel j s with
       | Ok (s', lr) =>
-          match contrib_entry acc orig j lr (loaded s') with
+          match contrib_entry acc orig j lr (module_for fs root (base s') j (loaded s')) with
           | None => Err ESymbolConflict (events s')
-          | Some (acc', orig') => entry_go fs fuel r s' acc' orig'
+          | Some (acc', orig') => entry_go fs root fuel r s' acc' orig'
           end
       | Err e tr => Err e tr
       | Fuel => Fuel
@@ -338,7 +353,7 @@ Definition run (fs : fsys) (entry : fpath) (fuel : nat) : res (list event) :=
   match find_file fs entry with
   | None => Err ENotFound []
   | Some m =>
-      match entry_go fs fuel (m_imports m) (init_state entry) ([], []) [] with
+      match entry_go fs (dir_of entry) fuel (m_imports m) (init_state entry) ([], []) [] with
       | Fuel => Fuel
       | Err e tr => Err e tr
       | Ok (st, acc) =>
@@ -348,21 +363,16 @@ Definition run (fs : fsys) (entry : fpath) (fuel : nat) : res (list event) :=
       end
   end.
 
-(* fuel that always suffices (Proofs: no_divergence): every stack entry is a distinct dotted path
-   that is written in some import of some file, or the parent of one *)
-Definition all_keys (fs : fsys) : list key :=
-  flat_map (fun fm => flat_map (fun i => [i_path i; removelast (i_path i)]) (m_imports (snd fm))) fs.
-Definition fuel_bound (fs : fsys) : nat := S (S (length (all_keys fs))).
+(* fuel that always suffices (Proofs: no_divergence): every stack entry is a distinct file *)
+Definition fuel_bound (fs : fsys) : nat := S (S (length fs)).
 
 (* ---------------------------------------------------------------- what a top level can name *)
 Inductive spelling := SBare (n : ident) | SQual (q n : ident).    (* n  |  q.n *)
 
-(* q.n with q a module alias is the global "q::n"; with any other q the compiler drops the
-   qualifier and compiles the bare identifier n (backend compile_typed_member_access). *)
+(* q.n with q a module alias is the global "q::n"; with any other q it does not compile
+   (our names are never builtins). *)
 Definition probe (ev : event) (sp : spelling) : option value :=
   match sp with
   | SBare n => if mem_id n (ev_known ev) then ns_get (GB n) (ev_ns ev) else None
-  | SQual q n =>
-      if mem_id q (ev_aliases ev) then ns_get (GQ q n) (ev_ns ev)
-      else if mem_id n (ev_known ev) then ns_get (GB n) (ev_ns ev) else None
+  | SQual q n => if mem_id q (ev_aliases ev) then ns_get (GQ q n) (ev_ns ev) else None
   end.
